@@ -4,6 +4,7 @@ from ..core import (B, L, SF, W, FnView, cname, rname, is_call_to, call_args, ch
                     TooManyPaths, diverges, subterms, contains, mk_bin, fmt_template, decode_format, lift_if, if_leaves,
                     decode_arguments)
 from ..facts import norm_path
+from ..core import int_width, INT_TYS
 
 # --------------------------------------------------------------------------- spec tables
 
@@ -147,6 +148,15 @@ def rule_geometry(ctx, rule, fv_new, adt, mask_f, shift_f, size_param, zero_fiel
                       % (shift_f, show(t), got[0], got[1], size_param), line_of(lit))
         except NotPoly as e:
             ctx.fail(rule, key, "%s = %s — %s" % (shift_f, show(t), e), line_of(lit))
+    # register geometry is computed in 64-bit integers throughout (an untyped `1 << bits` is an i32 shift)
+    fnodes = {f["name"]: f["e"] for f in lit.get("fields", [])}
+    for f in (mask_f, shift_f):
+        narrow = narrow_arith(fv_new, fnodes.get(f)) if fnodes.get(f) is not None else []
+        ctx.check(rule, "%s.%s:width" % (adt, f), not narrow, "%s is computed in 64-bit arithmetic" % f,
+                  "`%s` is computed through a %s operation `%s`: for k >= 16 the value needs more than 32 bits "
+                  "(shift overflow panic in debug builds, silently wrong codes in release builds)"
+                  % (f, narrow[0].get("ty") if narrow else "", show(fv_new.term(narrow[0])) if narrow else ""),
+                  line_of(narrow[0]) if narrow else None)
     for f in zero_fields:
         key = "%s.%s" % (adt, f)
         t = fs.get(f)
@@ -919,4 +929,38 @@ def helper_views(ctx, fv):
                 if v is not None:
                     seen.add(nm)
                     out.append((n, v))
+    return out
+
+
+
+def narrow_arith(fv, node, _seen=None):
+    """arithmetic / shift nodes of a sub-64-bit integer type in the expression `node`, following
+    immutable locals to their initialisers; the shift-amount operand of << and >> is exempt."""
+    _seen = _seen if _seen is not None else set()
+    out = []
+    if node is None or id(node) in _seen:
+        return out
+    _seen.add(id(node))
+    k = node.get("k")
+    if k == "local":
+        b = fv.binds.get(node["id"])
+        if b is not None and b["val"][0] == "node" and b["val"][1] is not None and not b["mut"]:
+            out += narrow_arith(fv, b["val"][1], _seen)
+        return out
+    if k == "bin":
+        ty = node.get("ty", "")
+        if ty in INT_TYS and int_width(ty) < 64 and node.get("op") in ("<<", ">>", "+", "-", "*"):
+            out.append(node)
+        out += narrow_arith(fv, node["l"], _seen)
+        if node.get("op") not in ("<<", ">>"):
+            out += narrow_arith(fv, node["r"], _seen)
+        return out
+    if k in ("cast", "un", "addr"):
+        return narrow_arith(fv, node["e"], _seen)
+    if k in ("call", "mcall"):
+        for a in call_args(node):
+            out += narrow_arith(fv, a, _seen)
+        return out
+    if k == "block" and node.get("expr") is not None:
+        return narrow_arith(fv, node["expr"], _seen)
     return out
